@@ -14,11 +14,14 @@
   Models: KavaVerif/Model/Savings.lean (x/savings keeper/deposit.go, withdraw.go) and
   KavaVerif/Model/Earn.lean (x/earn keeper/deposit.go, withdraw.go, vault_share.go, strategy_*.go;
   the strategy value V is a state component moved exactly by the strategies and only increased by
-  the environment step `accrue`).  Only property statements live here; helper lemmas are in
-  KavaVerif/Proofs/{EarnNum,Earn,Savings}.lean.
+  the environment step `accrue`) and KavaVerif/Model/EarnShares.lean (x/earn types/share.go
+  `VaultShares.Add/Sub` as sorted association lists, and the world of several vaults with one share
+  record per account).  Only property statements live here; helper lemmas are in
+  KavaVerif/Proofs/{EarnNum,Earn,EarnShares,Savings}.lean.
 -/
 import KavaVerif.Proofs.Earn
 import KavaVerif.Proofs.EarnFix
+import KavaVerif.Proofs.EarnShares
 import KavaVerif.Proofs.Savings
 set_option linter.unusedSimpArgs false
 set_option linter.unusedVariables false
@@ -245,6 +248,108 @@ theorem C11_frame (s : St) (o : Op) (b : Addr) (hb : o.actor ≠ some b) (w : Na
   unfold wnext
   simp [hu]
 
+/-! ## Earn: the share record of an account and the world of several vaults -/
+
+open Earn.Shares
+
+/-- `VaultShares.Add` (types/share.go) on a valid record (strictly sorted by denom, duplicate-free,
+    positive amounts) and a strictly sorted set of non-negative shares — one share, as in every
+    keeper `Deposit`, or several — does not panic, returns a valid record, and the result is the
+    pointwise sum: no share of any other denom is lost, duplicated or changed. -/
+theorem C11_shares_add_spec (A B : Shares) (hA : Valid A) (hB : SSorted B) (hB0 : ∀ b ∈ B, 0 ≤ b.2) :
+    ∃ R, add A B = .ok R ∧ Valid R ∧ ∀ d, amountOf R d = amountOf A d + amountOf B d :=
+  add_spec A B hA hB hB0
+
+/-- `VaultShares.Sub` on a valid record and a strictly sorted set of non-negative shares, none above
+    what the record holds: no panic, a valid record, the pointwise difference. -/
+theorem C11_shares_sub_spec (A B : Shares) (hA : Valid A) (hB : SSorted B) (hB0 : ∀ b ∈ B, 0 ≤ b.2)
+    (hle : ∀ d, amountOf B d ≤ amountOf A d) :
+    ∃ R, sub A B = .ok R ∧ Valid R ∧ ∀ d, amountOf R d = amountOf A d - amountOf B d :=
+  sub_spec A B hA hB hB0 hle
+
+/-- the genesis state of the several-vault world (no vault record, no share record, any bank
+    balances) satisfies the invariant `MInv`: every vault's view satisfies the single-vault invariant
+    and every account's record is valid -/
+theorem C11_multi_init (accts : List Addr) (funds : Addr → Nat → Int) :
+    MInv accts { mempty with bal := funds } := mempty_inv accts funds
+
+/-- "each vault's total shares equal the sum of account shares", all vaults at once: after every list
+    of operations (vault, deposit / withdraw / accrue) on any vaults by the accounts `accts`, for EVERY
+    vault `v` the total shares are the sum over the accounts of `AmountOf(v)` of their record, and the
+    record exists exactly when that total is non-zero. -/
+theorem C11_multi_shares_sum (accts : List Addr) (hn : accts.Nodup) (ops : List (Nat × Op))
+    (hops : ∀ vo ∈ ops, ∀ a, vo.2.actor = some a → a ∈ accts) (m : MSt) (h : MInv accts m) (v : Nat) :
+    let m' := mrun m ops
+    (m'.vault v).tot = sumOver accts (fun a => amountOf (m'.recs a) v) ∧
+    ((m'.vault v).found = true ↔ (m'.vault v).tot ≠ 0) := by
+  have := (mrun_inv accts hn ops m hops h).1 v
+  exact ⟨this.2.1, this.2.2.2⟩
+
+/-- every account's share record stays a strictly sorted, duplicate-free list of positive shares
+    (what `VaultShareRecord.Validate` demands) after every list of operations on any vaults -/
+theorem C11_multi_record_valid (accts : List Addr) (hn : accts.Nodup) (ops : List (Nat × Op))
+    (hops : ∀ vo ∈ ops, ∀ a, vo.2.actor = some a → a ∈ accts) (m : MSt) (h : MInv accts m) (a : Addr) :
+    ((mrun m ops).recs a).Pairwise (fun x y => x.1 < y.1) ∧ ∀ s ∈ (mrun m ops).recs a, 0 < s.2 :=
+  (mrun_inv accts hn ops m hops h).2 a
+
+/-- "No operation changes another account's shares", and no operation on vault `v` changes anybody's
+    shares in another vault: any operation `o` on vault `v`, successful or not, dust sweep included,
+    (1) leaves the whole share record (all vaults) and all bank balances of every other account
+    unchanged, (2) leaves the shares of EVERY account — the acting one included — in every other vault
+    `w ≠ v` and its balance in every other denom unchanged, and (3) leaves every other vault (record,
+    total shares, strategy value, module balance) unchanged. -/
+theorem C11_multi_frame (accts : List Addr) (m : MSt) (v : Nat) (o : Op)
+    (hact : ∀ a, o.actor = some a → a ∈ accts) (h : MInv accts m) :
+    (∀ b, o.actor ≠ some b → (mnext m (v, o)).recs b = m.recs b ∧ (mnext m (v, o)).bal b = m.bal b) ∧
+    (∀ b w, w ≠ v → amountOf ((mnext m (v, o)).recs b) w = amountOf (m.recs b) w ∧
+                     (mnext m (v, o)).bal b w = m.bal b w) ∧
+    (∀ w, w ≠ v → (mnext m (v, o)).vault w = m.vault w) :=
+  mnext_frame accts m v o hact h
+
+/-- the several-vault world is the single-vault model on every vault: what `Deposit` / `Withdraw` on
+    vault `v` do to the view of `v` is exactly the single-vault step — the record operations
+    (`Shares.Add`, `Shares.Sub`) never panic and store the single-vault result — so every single-vault
+    theorem above (redeemable ≤ value, withdrawal ≤ value, no-profit partial, …) holds for each vault
+    of the several-vault world. -/
+theorem C11_multi_view (accts : List Addr) (m : MSt) (v : Nat) (o : Op)
+    (hact : ∀ a, o.actor = some a → a ∈ accts) (h : MInv accts m) :
+    view (mnext m (v, o)) v = next (view m v) o ∧ ∀ w, w ≠ v → view (mnext m (v, o)) w = view m w := by
+  refine ⟨mnext_view accts m v o hact h, fun w hw => ?_⟩
+  obtain ⟨-, h2, h3⟩ := mnext_frame accts m v o hact h
+  apply St.ext'
+  · simp only [view, h3 w hw]
+  · simp only [view, h3 w hw]
+  · intro b; exact (h2 b w hw).1
+  · simp only [view, h3 w hw]
+  · simp only [view, h3 w hw]
+  · intro b; exact (h2 b w hw).2
+
+/-- what the harness's log of deposits and withdrawals records: the shares a successful operation adds
+    to (removes from) the acting account's record for vault `v` are exactly what it adds to (removes
+    from) the vault's total shares -/
+theorem C11_multi_ledger (accts : List Addr) (m : MSt) (v : Nat) (o : Op) (a : Addr) (ha : a ∈ accts)
+    (hact : o.actor = some a) (h : MInv accts m) (s' : St) (hs : step (view m v) o = .ok s') :
+    amountOf ((mnext m (v, o)).recs a) v - amountOf (m.recs a) v =
+      ((mnext m (v, o)).vault v).tot - (m.vault v).tot := by
+  have hv := mnext_view accts m v o (fun b hb => by rw [hact] at hb; cases hb; exact ha) h
+  have e : next (view m v) o = s' := by unfold next; rw [hs]
+  have hd := step_delta accts (view m v) s' o a ha hact (h.1 v) hs
+  rw [← e, ← hv] at hd
+  exact hd
+
+/-- "an account can always withdraw its redeemable value from every vault it holds": in any state of
+    the several-vault world satisfying the invariant, an account whose `GetVaultAccountValue` in vault
+    `v` is positive succeeds in withdrawing exactly that value from `v` (share price at most 10^18
+    coins per whole share; that the strategy can pay is the monitored liquidity assumption). -/
+theorem C11_multi_withdrawable (accts : List Addr) (m : MSt) (v : Nat) (a : Addr) (ha : a ∈ accts)
+    (h : MInv accts m) (hpos : 0 < redeemable (view m v) a) (hprice : (m.vault v).val ≤ (m.vault v).tot)
+    (hl : 0 ≤ (m.vault v).loose) :
+    ∃ m', mstep m v (.withdraw a (redeemable (view m v) a) true true) = .ok m' := by
+  obtain ⟨s', hs⟩ := withdraw_redeemable_ok accts (view m v) a ha (h.1 v) hpos hprice hl
+  obtain ⟨m', hm, -⟩ := mstep_lift accts m v (.withdraw a (redeemable (view m v) a) true true) s'
+    (fun b hb => by simp only [Op.actor, Option.some.injEq] at hb; subst hb; exact ha) h hs
+  exact ⟨m', hm⟩
+
 /-! ## Non-vacuity: concrete states meeting the hypotheses, on which the operations succeed -/
 
 /-- a vault with three holders at share price 10/6 and an idle fourth account -/
@@ -293,5 +398,15 @@ example : Savings.SInv [0, 1, 2] [0, 1] exSav := by
 
 example : (Savings.withdraw [0, 1] exSav 0 [(0, 99), (1, 2)]).isOk = true := by decide   -- capped + partial
 example : (Savings.deposit (fun d => decide (d < 2)) exSav 2 [(1, 7)]).isOk = true := by decide
+
+/-- an account holding vaults 0 and 3 opens a position in vault 2 (between), tops it up, withdraws
+    part of it and all of it: `VaultShares.Add/Sub` on concrete records -/
+example : add [(0, 5), (3, 7)] [(2, 1)] = .ok [(0, 5), (2, 1), (3, 7)] := by
+  simp [add, merge, isSorted, removeZero]
+example : add [(0, 5), (2, 1), (3, 7)] [(2, 4)] = .ok [(0, 5), (2, 5), (3, 7)] := by
+  simp [add, merge, isSorted, removeZero]
+example : sub [(0, 5), (2, 5), (3, 7)] [(2, 5)] = .ok [(0, 5), (3, 7)] := by
+  simp [sub, negative, add, merge, isSorted, removeZero]
+example : Valid [(0, 5), (2, 5), (3, 7)] := (isValid_iff _).mp (by decide)
 
 end KV.C11
